@@ -295,6 +295,11 @@ func runC02(c *core.Ctx) {
 			}
 			w.Write(p, k.content())
 		}
+		if w.Hist%24 == 11 {
+			k.BoundaryFiles("blk/")
+			k.goit("add", "blk")
+			k.Do("commit")
+		}
 		if w.Hist%12 == 5 {
 			// scale: a staging-area file well beyond 4 KiB, written by one process and read by the next ones
 			k.Populate(130 + k.R.IntN(200))
